@@ -241,6 +241,7 @@ def ratioGate (price : Market → Option Int) (m : Market) (collZero : Bool) (cm
 
 /-- non-price inputs of the cdp actions, in the order the code evaluates them -/
 structure CdpIn where
+  cdpFound : Bool := true     -- draw only: the CDP lookup that precedes `ValidateCollateral`
   found : Bool := true        -- collateral type exists
   denomOk : Bool := true
   pre : Bool := true          -- the non-price checks before the ratio check (cdp found, balance, limits …)
@@ -266,9 +267,14 @@ def cdpWithdraw (price : Market → Option Int) (flags : Market → Bool) (cp : 
   | .ok _ => if !i.pre then .err else ratioGate price cp.spot i.collZero i.cmp0 i.cmp
   | r => r
 
-/-- `AddPrincipal` (draw): no `ValidateCollateral`; the spot price is read by the ratio check -/
-def cdpDraw (price : Market → Option Int) (cp : CP) (i : CdpIn) : Res Unit :=
-  if !i.pre then .err else ratioGate price cp.spot i.collZero i.cmp0 i.cmp
+/-- `AddPrincipal` (draw): the CDP is looked up first (`cdpFound`), then `ValidateCollateral` on its
+    collateral (both status flags, as for create / deposit / withdraw), then the remaining non-price
+    checks, then the ratio check reads the spot price -/
+def cdpDraw (price : Market → Option Int) (flags : Market → Bool) (cp : CP) (i : CdpIn) : Res Unit :=
+  if !i.cdpFound then .err
+  else match validateCollateral flags i.found i.denomOk cp with
+    | .ok _ => if !i.pre then .err else ratioGate price cp.spot i.collZero i.cmp0 i.cmp
+    | r => r
 
 /-- `AttemptKeeperLiquidation`: `ValidateLiquidation` reads the liquidation-market price -/
 def cdpLiquidate (price : Market → Option Int) (cp : CP) (i : CdpIn) : Res Unit :=
@@ -363,7 +369,7 @@ def gateCalls : List (String × String × List String) := [
   ("x/cdp/keeper/cdp.go", "AddCdp", ["ValidateCollateral", "ValidateCollateralizationRatio"]),
   ("x/cdp/keeper/deposit.go", "DepositCollateral", ["ValidateCollateral"]),
   ("x/cdp/keeper/deposit.go", "WithdrawCollateral", ["ValidateCollateral", "CalculateCollateralizationRatio"]),
-  ("x/cdp/keeper/draw.go", "AddPrincipal", ["ValidateCollateralizationRatio"]),
+  ("x/cdp/keeper/draw.go", "AddPrincipal", ["ValidateCollateral", "ValidateCollateralizationRatio"]),
   ("x/cdp/keeper/seize.go", "AttemptKeeperLiquidation", ["ValidateLiquidation"]),
   ("x/cdp/keeper/cdp.go", "ValidateCollateralizationRatio", ["CalculateCollateralizationRatio"]),
   ("x/cdp/keeper/seize.go", "ValidateLiquidation", ["CalculateCollateralizationRatio"]),
